@@ -46,6 +46,22 @@ use serde_json::Value;
 use std::collections::BTreeMap;
 use std::collections::BTreeSet;
 
+/// What an application that accepts several algorithms plugs in: EdDSA and ECDSA verifiers behind one `JwsVerifier`.
+pub struct AnyVerifier;
+
+impl identity_jose::jws::JwsVerifier for AnyVerifier {
+  fn verify(
+    &self,
+    input: identity_jose::jws::VerificationInput,
+    public_key: &identity_jose::jwk::Jwk,
+  ) -> Result<(), identity_jose::jws::SignatureVerificationError> {
+    match input.alg {
+      identity_jose::jws::JwsAlgorithm::EdDSA => EdDSAJwsVerifier::default().verify(input, public_key),
+      _ => identity_ecdsa_verifier::EcDSAJwsVerifier::default().verify(input, public_key),
+    }
+  }
+}
+
 pub const RULE: &str = "One run = 1-2 issuers, 1-2 holders, an adversary with its own DID and a verifier, each with its own \
   skewed clock and storage, over 6-18 simulated steps: issue credentials (random optional fields, status entries, dates \
   from the issuer's clock), rotate keys (same or new fragment), attach/detach relationships, revoke/unrevoke, publish \
@@ -68,6 +84,7 @@ pub fn probes(prop: &str, _tier: &str) -> Vec<String> {
     "probe.accepted",
     "probe.rejected",
     "probe.rotation",
+    "fault.adversary.malformed_key_document",
   ];
   if prop == "C02" {
     v.extend([
@@ -814,7 +831,7 @@ fn validate_credential(w: &mut World, step: usize) {
   let fail_fast = if ctx::choose(2) == 0 { FailFast::FirstError } else { FailFast::AllErrors };
 
   // ---- the call under test ----
-  let validator = JwtCredentialValidator::with_signature_verifier(EdDSAJwsVerifier::default());
+  let validator = JwtCredentialValidator::with_signature_verifier(AnyVerifier);
   let res = ctx::catch(|| validator.validate::<_, Object>(&Jwt::new(delivered.clone()), &sup.doc, &opts, fail_fast));
   let reads = ctx::take_clock_reads();
   let res = match res {
@@ -1201,7 +1218,7 @@ fn validate_presentation(w: &mut World, step: usize) {
   if let Some(b) = explicit_latest {
     opts = opts.latest_issuance_date(ts(b));
   }
-  let validator = JwtPresentationValidator::with_signature_verifier(EdDSAJwsVerifier::default());
+  let validator = JwtPresentationValidator::with_signature_verifier(AnyVerifier);
   let res = ctx::catch(|| validator.validate::<_, Jwt, Object>(&Jwt::new(delivered.clone()), &sup.doc, &opts));
   let res = match res {
     Ok(r) => r,
@@ -1370,6 +1387,130 @@ fn validate_presentation(w: &mut World, step: usize) {
   }
 }
 
+/// A Byzantine party publishes its own DID document with key material that is malformed for the algorithm it then
+/// "signs" with (short / empty / oversized coordinates, wrong curve, wrong key type), issues a credential or a
+/// presentation under that method and hands it to the verifier together with its own, correctly resolved document.
+/// The signature condition is false, so the statement demands an error; a panic is a crash of the verifier.
+fn byzantine_signer(w: &mut World, step: usize, prop: &str) {
+  let adv = w.adversary();
+  w.clock.enter(0);
+  let n = w.parties[adv].methods.len() + step;
+  let frag = format!("ec{n}");
+  let coord = |len: usize| b64(&ctx::bytes(len));
+  let (alg, jwk): (&str, Value) = match ctx::choose(7) {
+    0 => ("ES256", serde_json::json!({"kty":"EC","crv":"P-256","x": coord(31), "y": coord(32)})),
+    1 => ("ES256", serde_json::json!({"kty":"EC","crv":"P-256","x": "", "y": coord(32)})),
+    2 => ("ES256K", serde_json::json!({"kty":"EC","crv":"secp256k1","x": coord(32), "y": coord(16)})),
+    3 => ("ES256K", serde_json::json!({"kty":"EC","crv":"secp256k1","x": coord(33), "y": coord(33)})),
+    4 => ("ES256", serde_json::json!({"kty":"EC","crv":"secp256k1","x": coord(32), "y": coord(32)})),
+    5 => ("ES256", serde_json::json!({"kty":"OKP","crv":"Ed25519","x": coord(32)})),
+    _ => ("EdDSA", serde_json::json!({"kty":"OKP","crv":"Ed25519","x": coord(7)})),
+  };
+  let Ok(j) = serde_json::from_value::<identity_jose::jwk::Jwk>(jwk.clone()) else { return };
+  let did = w.parties[adv].did.clone();
+  let Ok(m) = identity_verification::VerificationMethod::new_from_jwk(identity_did::CoreDID::parse(&did).unwrap(), j, Some(&frag)) else { return };
+  let ok = match &mut w.parties[adv].doc {
+    AnyDoc::Core(d) => d.insert_method(m, to_scope(None)).is_ok(),
+    AnyDoc::Iota(d) => d.insert_method(m, to_scope(None)).is_ok(),
+  };
+  if !ok {
+    return;
+  }
+  w.publish(adv);
+  // the verifier resolves the latest version (the one that lists the method)
+  let sup = match w.ledger.resolve(&did, 0) {
+    Some((version, Ok(doc))) => Supplied {
+      json: serde_json::to_value(&doc).unwrap(),
+      doc,
+      did: did.clone(),
+      version,
+    },
+    _ => return,
+  };
+  let header = serde_json::json!({"alg": alg, "kid": format!("{did}#{frag}"), "typ": "JWT"});
+  let now = w.clock.now;
+  let claims = if prop == "C02" {
+    serde_json::json!({"iss": did, "nbf": now - 10, "sub": "did:sim:subject",
+      "vc": {"@context": "https://www.w3.org/2018/credentials/v1", "type": ["VerifiableCredential"], "credentialSubject": {"k": step}}})
+  } else {
+    serde_json::json!({"iss": did, "nbf": now - 10,
+      "vp": {"@context": "https://www.w3.org/2018/credentials/v1", "type": "VerifiablePresentation", "verifiableCredential": []}})
+  };
+  let sig_len = if alg == "EdDSA" { 64 } else { [64usize, 64, 63, 0][ctx::choose(4)] };
+  let token = format!(
+    "{}.{}.{}",
+    b64(header.to_string().as_bytes()),
+    b64(claims.to_string().as_bytes()),
+    b64(&ctx::bytes(sig_len))
+  );
+  ctx::set_clock(now);
+  ctx::stat("fault.adversary.malformed_key_document");
+  ctx::sched("malformed", crate::core::tape::Fnv::of(jwk.to_string().as_bytes()) & 0xff);
+  w.nontrivial = true;
+  let kind = format!("{alg}/{}/{}", jwk["kty"].as_str().unwrap_or(""), jwk["crv"].as_str().unwrap_or(""));
+  if prop == "C02" {
+    let validator = JwtCredentialValidator::with_signature_verifier(AnyVerifier);
+    let opts = JwtCredentialValidationOptions::default().status_check(StatusCheck::SkipAll);
+    let res = ctx::catch(|| validator.validate::<_, Object>(&Jwt::new(token.clone()), &sup.doc, &opts, FailFast::FirstError));
+    match res {
+      Err(p) => ctx::violation(
+        "C02",
+        "C02.error_not_crash",
+        format!("validate/panic/malformed-key-document/{kind}"),
+        format!("validating a credential of an issuer whose published key {jwk} is malformed panicked: {p}"),
+      ),
+      Ok(Ok(_)) => ctx::violation(
+        "C02",
+        "C02.accept_only_if_all_conditions",
+        format!("accepted-despite/signature/malformed-key-document/{kind}"),
+        format!("credential with a random signature accepted under malformed key {jwk}"),
+      ),
+      Ok(Err(e)) => {
+        let got = variant_names(&e.validation_errors);
+        ctx::trace(format!("step {step}: byzantine issuer ({kind}) -> Err{got:?}"));
+        if got != vec!["Signature"] {
+          ctx::violation(
+            "C02",
+            "C02.error_identifies_condition",
+            format!("want=Signature/got={}/malformed-key-document", got.join("+")),
+            format!("the only false condition is the signature (malformed key {jwk}) but errors are {got:?}"),
+          );
+        }
+      }
+    }
+  } else {
+    let validator = JwtPresentationValidator::with_signature_verifier(AnyVerifier);
+    let opts = JwtPresentationValidationOptions::default();
+    let res = ctx::catch(|| validator.validate::<_, Jwt, Object>(&Jwt::new(token.clone()), &sup.doc, &opts));
+    match res {
+      Err(p) => ctx::violation(
+        "C03",
+        "C03.error_not_crash",
+        format!("validate/panic/malformed-key-document/{kind}"),
+        format!("validating a presentation of a holder whose published key {jwk} is malformed panicked: {p}"),
+      ),
+      Ok(Ok(_)) => ctx::violation(
+        "C03",
+        "C03.accept_only_if_bound_to_holder",
+        format!("accepted-despite/signature/malformed-key-document/{kind}"),
+        format!("presentation with a random signature accepted under malformed key {jwk}"),
+      ),
+      Ok(Err(e)) => {
+        let got = variant_names(&e.presentation_validation_errors);
+        ctx::trace(format!("step {step}: byzantine holder ({kind}) -> Err{got:?}"));
+        if got != vec!["PresentationJwsError"] {
+          ctx::violation(
+            "C03",
+            "C03.error_identifies_condition",
+            format!("want=PresentationJwsError/got={}/malformed-key-document", got.join("+")),
+            format!("the only false condition is the signature (malformed key {jwk}) but errors are {got:?}"),
+          );
+        }
+      }
+    }
+  }
+}
+
 pub fn run(prop: &str, _params: &Params) {
   let mut w = World {
     clock: Clock { now: ctx::BASE_TIME },
@@ -1459,8 +1600,9 @@ pub fn run(prop: &str, _params: &Params) {
   let steps = 6 + ctx::choose(13);
   for step in 0..steps {
     w.clock.advance(90);
-    let weights: [u32; 5] = if prop == "C02" { [5, 0, 3, 8, 0] } else { [2, 5, 2, 0, 8] };
+    let weights: [u32; 6] = if prop == "C02" { [5, 0, 3, 8, 0, 1] } else { [2, 5, 2, 0, 8, 1] };
     match ctx::weighted(&weights) {
+      5 => byzantine_signer(&mut w, step, prop),
       0 => issue(&mut w, step),
       1 => {
         if prop == "C03" && ctx::chance(1, 5) {
